@@ -253,6 +253,7 @@ struct InclEngine : Engine {
 				while (t.size() + 64 <= target) t += "filler filler filler filler filler filler filler filler filler 63\n";
 				if (t.size() < target) { t += std::string(target - t.size() - 1, 'y'); t.push_back('\n'); }
 			}
+			if (w.chance(1, 14)) t = w.chance(1, 2) ? std::string() : std::string("x");      // an empty file, a one-byte file: content shorter than any marker
 			if (w.chance(1, 10)) t = "\xef\xbb\xbf" + t;
 			if (w.chance(1, 8) && !t.empty()) t.pop_back();
 			Json f = Json::object(), v = Json::array();
